@@ -103,7 +103,7 @@ func opaqueRecv(t types.Type) bool {
 	case "os.File",
 		"github.com/dgraph-io/badger/v3.DB", "github.com/dgraph-io/badger/v3.Txn",
 		"github.com/dgraph-io/badger/v3.Iterator", "github.com/dgraph-io/badger/v3.Item",
-		"gopkg.in/yaml.v2.Decoder":
+		"gopkg.in/yaml.v2.Decoder", "google.golang.org/grpc.Server":
 		return true
 	}
 	return false
@@ -151,6 +151,9 @@ type Violation struct {
 	Choices  []int            `json:"choices"`
 	Labels   []string         `json:"labels,omitempty"`
 	Native   string           `json:"native_reproduced"`
+	// Threads: how many goroutines existed on the violating path (a schedule-dependent
+	// counterexample is not replayed natively: the real scheduler cannot be told the schedule)
+	Threads int `json:"threads,omitempty"`
 }
 
 type deferred struct {
@@ -580,6 +583,7 @@ func (m *Machine) violation(kind, id, msg string, mod map[string]uint64) {
 	v.Choices = append([]int{}, m.choices...)
 	v.Labels = append([]string{}, m.labels...)
 	v.Native = "not_attempted"
+	v.Threads = len(m.threads)
 	m.w.report(v)
 	panic(pathEnd{"violation", id})
 }
